@@ -157,6 +157,7 @@ fn in53(a: KNumber) -> bool {
 // @props C14
 // @fns impl Ord for KNumber
 // @bound triples, all kinds, full width, NaN excluded, ints restricted to |int| <= 2^53 when any operand is a float
+// @timeout 1500
 #[kani::proof]
 fn c14_ord_trans() {
     let a = any_num();
@@ -222,6 +223,7 @@ fn c01_int_addsub() {
 // @props C01
 // @fns number_op!(Mul) by value
 // @bound full i64 x i64 against std's wrapping_mul (taken as the definition of wrapping, DESIGN §4 C01.int)
+// @timeout 1500
 #[kani::proof]
 fn c01_int_mul() {
     let a: i64 = kani::any();
@@ -233,6 +235,7 @@ fn c01_int_mul() {
 // @props C01
 // @fns number_op!(Mul) by reference
 // @bound full i64 x i64 against std's wrapping_mul
+// @timeout 1500
 #[kani::proof]
 fn c01_int_mul_ref() {
     let a: i64 = kani::any();
@@ -445,6 +448,7 @@ fn mixed_pair() -> (KNumber, KNumber, f64, f64) {
 // @props C01
 // @fns number_op!(Add) mixed-kind and float arms, by value
 // @bound at least one operand is F64, full width on both
+// @timeout 1500
 #[kani::proof]
 fn c01_mixed_add() {
     let (a, b, x, y) = mixed_pair();
@@ -456,6 +460,7 @@ fn c01_mixed_add() {
 // @props C01
 // @fns number_op!(Add) mixed-kind and float arms, by reference
 // @bound at least one operand is F64, full width on both
+// @timeout 1500
 #[kani::proof]
 fn c01_mixed_add_ref() {
     let (a, b, x, y) = mixed_pair();
@@ -466,6 +471,7 @@ fn c01_mixed_add_ref() {
 // @props C01
 // @fns number_op!(Sub) mixed-kind and float arms, by value
 // @bound at least one operand is F64, full width on both
+// @timeout 1500
 #[kani::proof]
 fn c01_mixed_sub() {
     let (a, b, x, y) = mixed_pair();
@@ -477,6 +483,7 @@ fn c01_mixed_sub() {
 // @props C01
 // @fns number_op!(Sub) mixed-kind and float arms, by reference
 // @bound at least one operand is F64, full width on both
+// @timeout 1500
 #[kani::proof]
 fn c01_mixed_sub_ref() {
     let (a, b, x, y) = mixed_pair();
